@@ -98,7 +98,7 @@ def keyed_case(draw):
     items = [[k, i] for i, k in enumerate(keys)]
     parent = draw(st.sampled_from(['group_by', 'group_by', 'roll', 'split']))
     spec = [draw(st.integers(1, 5)), draw(st.integers(1, 5))] if parent == 'roll' else None
-    return {'w': w, 's': s, 'items': items, 'parent': parent, 'pspec': spec, 'objects': draw(st.booleans())}
+    return {'w': w, 's': s, 'items': items, 'parent': parent, 'pspec': spec, 'objects': draw(st.booleans()), 'post': draw(st.integers(0, 3)) == 0, 'npws': draw(st.integers(0, 3)) == 0}
 
 
 class Rec(object):
@@ -124,7 +124,14 @@ def check_keyed(case):
     items = [Rec(*i) for i in case['items']] if case.get('objects') else [tuple(i) for i in case['items']]
     ctx = {'w': w, 's': s, 'items': case['items'], 'parent': parent, 'pspec': case['pspec']}
     clock, phead, head = [0], [], []
-    inner = [drive.tap(phead, clock), rs.data.roll(w, s, [drive.tap(head, clock), rs.data.to_list()])]
+    wn, sn = w, s
+    if case.get('npws'):
+        import numpy
+        wn, sn = numpy.int64(w), numpy.int32(s)        # window / stride given as numpy integers (sizes computed from an array)
+    inner = [drive.tap(phead, clock), rs.data.roll(wn, sn, [drive.tap(head, clock), rs.data.to_list()])]
+    if case.get('post'):
+        # a key-stateful stage BEHIND roll in the same parent key: every window's result reaches it before the key completes
+        inner = inner + [rs.ops.map(len), rs.math.sum(reduce=True)]
     if parent == 'group_by':
         ops = [rs.ops.group_by(lambda i: i[0], inner)]
     elif parent == 'roll':
@@ -148,6 +155,10 @@ def check_keyed(case):
             nt = True
     if claimed != len(wl):
         raise Violation('%d windows were opened outside any parent key lifetime' % (len(wl) - claimed), **ctx)
+    if case.get('post'):
+        want = sorted(sum(len(plt['items'][j * s: j * s + w]) for j in range(-(-len(plt['items']) // s) if plt['items'] else 0)) for plt in plts)
+        if sorted(r.items) != want:
+            raise Violation('a stage behind roll did not receive every window of its key before the key completed', expected_totals=want, got=r.items, **ctx)
     labels = ['parent:' + parent, 's<w' if s < w else ('s=w' if s == w else 's>w'), 'parent-lifetimes=%d' % min(len(plts), 4)]
     keys = [k for k, _ in case['items']]
     if case.get('objects'):
